@@ -111,8 +111,6 @@ def build_coq(jobs=NPROC):
     """Regenerate Gen/Generated.v from /repo and run the full .vo build (under a lock)."""
     res = BuildResult()
     os.makedirs(os.path.join(COQ, 'cases'), exist_ok=True)
-    lock = open(os.path.join(COQ, '.build.lock'), 'w')
-    fcntl.flock(lock, fcntl.LOCK_EX)
     try:
         g = subprocess.run([PY, os.path.join(HERE, 'gen_constants.py')], env=IMPL_ENV, capture_output=True, text=True, timeout=300)
         res.gen_rc = g.returncode
@@ -130,8 +128,7 @@ def build_coq(jobs=NPROC):
                 res.failed_files.append(f)
         return res
     finally:
-        fcntl.flock(lock, fcntl.LOCK_UN)
-        lock.close()
+        pass
 
 
 def closure(vfile):
@@ -153,8 +150,10 @@ def closure(vfile):
         except OSError:
             continue
         txt = re.sub(r'\(\*.*?\*\)', ' ', txt, flags=re.S)
-        for m in re.finditer(r'\bRequire\s+(?:Import\s+|Export\s+)?([^.]*?)\.\s', txt):
-            for name in m.group(1).split():
+        for m in re.finditer(r'(?:\bFrom\s+([\w.]+)\s+)?\bRequire\s+(?:Import\s+|Export\s+)?((?:\w+(?:\.\w+)*\s*)+)\.(?=\s)', txt):
+            if m.group(1) and not m.group(1).startswith('Fsic'):
+                continue            # From Coq / From stdpp ... : not ours
+            for name in m.group(2).split():
                 base = name.split('.')[-1]
                 if base in index and not name.startswith('Coq.'):
                     todo.append(index[base])
@@ -198,7 +197,8 @@ def audit(props_file):
             problems.append('%s: not compiled' % f)
     # Print Assumptions of the property theorems: recompile the Props file alone and read its output
     assumptions = []
-    p = subprocess.run(['coqc', '-R', '.', 'Fsic', '-w', '-notation-overridden,-inexact-float', props_file], cwd=COQ, capture_output=True, text=True, timeout=900)
+    os.makedirs(os.path.join(COQ, 'cases', 'audit'), exist_ok=True)
+    p = subprocess.run(['coqc', '-R', '.', 'Fsic', '-w', '-notation-overridden,-inexact-float', '-o', 'cases/audit/%s.vo' % os.path.basename(props_file)[:-2], props_file], cwd=COQ, capture_output=True, text=True, timeout=900)
     out = p.stdout
     if p.returncode != 0:
         problems.append('%s does not compile: %s' % (props_file, (p.stderr or p.stdout)[-400:]))
@@ -374,9 +374,13 @@ def run_impl(prop, cases, per_case_timeout=20, workers=NPROC):
 # --------------------------------------------------------------------------- known findings, evidence, replay
 def load_known():
     p = os.path.join(ROOT, 'known_findings.json')
-    if not os.path.exists(p):
-        return {'findings': [], 'fixed': []}
-    return json.load(open(p))
+    k = json.load(open(p)) if os.path.exists(p) else {'findings': [], 'fixed': []}
+    # staging area used while a property's check is being developed (merged into the main file when integrated)
+    for f in sorted(glob.glob(os.path.join(ROOT, 'known_findings.d', '*.json'))):
+        extra = json.load(open(f))
+        k['findings'] += extra.get('findings', [])
+        k['fixed'] += extra.get('fixed', [])
+    return k
 
 
 def write_replay(prop, payload):
